@@ -58,8 +58,12 @@ def bytestream_scenario(args):
     got = b""
     try:
         s.op(f"net seed {seed}"); s.op("net trace 0"); s.op("net latency 1 1")
-        s.op("new A ctrl=1 compat=0 opts=2 icetcp=1 iceudp=0 bytestream=1")
-        s.op("new B ctrl=0 compat=0 opts=2 icetcp=1 iceudp=0 bytestream=1")
+        # half of the sessions: the same pull-mode receiver on reliable agents over UDP (pseudo-TCP), where the amount of data
+        # available often ends exactly at a boundary between two buffers of the message
+        ptcp = rng.random() < 0.5
+        extra = "" if ptcp else " icetcp=1 iceudp=0 bytestream=1"
+        s.op("new A ctrl=1 compat=0 opts=2" + extra)
+        s.op("new B ctrl=0 compat=0 opts=2" + extra)
         for ag in "AB":
             s.op(f"stream {ag} 1"); s.op(f"attach {ag} 1"); s.op(f"gather {ag} 1")
         s.op("run 100")
@@ -70,30 +74,40 @@ def bytestream_scenario(args):
             return dict(seed=seed, transport="bytestream", bad=[], script=s.script, nmsg=0, model_lines=[], ready=False)
         s.op("detach B 1 1")
         for rnd in range(rng.randint(3, 7)):
-            frames = [bytes(rng.randrange(256) for _ in range(rng.choice([1, 2, 9, 10, 12, 30, 100, 700])))
-                      for _ in range(rng.randint(1, 4))]
+            first_layout = None
+            if ptcp and rng.random() < 0.7:
+                # exactly as many bytes as the first k buffers of the next receive vector hold (k < number of buffers)
+                lay = [rng.choice([1, 2, 3, 10, 11, 20, 64, 100, 1000]) for _ in range(rng.randint(2, 4))]
+                first_layout = ",".join(map(str, lay))
+                frames = [bytes(rng.randrange(256) for _ in range(sum(lay[:rng.randint(1, len(lay) - 1)])))]
+            else:
+                frames = [bytes(rng.randrange(256) for _ in range(rng.choice([1, 2, 9, 10, 12, 30, 100, 700])))
+                          for _ in range(rng.randint(1, 4))]
             for f in frames:
                 st = s.op(f"send A 1 1 {f.hex()}")[1]
-                if "ret " in st and "err" not in st:
+                m = re.match(r"ok ret (\d+)$", st.strip())
+                if m and int(m.group(1)) >= 1:      # (the call returns the number of whole messages accepted)
                     sent += f
             s.op("settle 150"); s.op("run 20")
-            for _ in range(8):
+            for i in range(8):
                 layout = ",".join(str(rng.choice([1, 2, 3, 10, 11, 20, 64, 1000])) for _ in range(rng.randint(1, 4)))
+                if i == 0 and first_layout:
+                    layout = first_layout
                 st = s.op(f"recvnb B 1 1 {layout}")[1]
                 m = re.match(r"ok ret (-?\d+)(?: err \S+)? len (\d+) data (\S+)", st)
                 if not m or int(m.group(1)) <= 0:
                     break
-                got += bytes.fromhex(m.group(3)) if m.group(3) != "-" else b""
+                got += bytes.fromhex(m.group(3).replace("-", ""))
         s.op("settle 200"); s.op("run 50")
         for _ in range(40):
             st = s.op("recvnb B 1 1 4096")[1]
             m = re.match(r"ok ret (-?\d+)(?: err \S+)? len (\d+) data (\S+)", st)
             if not m or int(m.group(1)) <= 0:
                 break
-            got += bytes.fromhex(m.group(3)) if m.group(3) != "-" else b""
+            got += bytes.fromhex(m.group(3).replace("-", ""))
         if got != sent:
             k = next((i for i in range(min(len(got), len(sent))) if got[i] != sent[i]), min(len(got), len(sent)))
-            bad.append(("bytestream", f"bytes gathered from the scatter buffers differ from the stream sent: {len(got)} received, {len(sent)} sent, "
+            bad.append(("bytestream" if not ptcp else "pull-reliable", f"bytes gathered from the scatter buffers differ from the stream sent: {len(got)} received, {len(sent)} sent, "
                                       f"first difference at offset {k} (got {got[k:k + 6].hex() or '<end>'}, sent {sent[k:k + 6].hex() or '<end>'})"))
         return dict(seed=seed, transport="bytestream", bad=bad, script=s.script, nmsg=len(sent), model_lines=[], ready=True)
     except simlib.SimDied as e:
